@@ -160,7 +160,8 @@ def gen(tier, seed):
             for _ in range(nr):
                 pairs.append((rand_mantissa(rnd), pa, rand_mantissa(rnd), pb, rnd.choice(PRES)))
     for pa in PREFIX_EXPS:
-        for ma in MANTISSAS:
+        # (for the unary operations also mantissas far below the comparison tolerance: un-normalised spellings such as (-4 * KILO) scaled to YOTTA)
+        for ma in MANTISSAS + ["-4E-21", "4E-21", "-1E-25", "-0.000000000000000000000049", "-5E-21"]:
             unary.append((ma, pa))
         for _ in range(6 if tier == "quick" else 60):
             unary.append((rand_mantissa(rnd), pa))
